@@ -4,6 +4,7 @@ import (
 	"git.torproject.org/pluggable-transports/snowflake.git/v2/common/task"
 	"io"
 	"log"
+	"sync"
 	"time"
 
 	"git.torproject.org/pluggable-transports/snowflake.git/v2/common/event"
@@ -18,6 +19,9 @@ func NewProxyEventLogger(logPeriod time.Duration, output io.Writer) event.Snowfl
 }
 
 type logEventLogger struct {
+	// lock protects the three sums: events arrive from the goroutines that
+	// close connections, the summary is written by the timer's goroutine.
+	lock            sync.Mutex
 	inboundSum      int
 	outboundSum     int
 	connectionCount int
@@ -30,20 +34,25 @@ func (p *logEventLogger) OnNewSnowflakeEvent(e event.SnowflakeEvent) {
 	switch e.(type) {
 	case event.EventOnProxyConnectionOver:
 		e := e.(event.EventOnProxyConnectionOver)
+		p.lock.Lock()
 		p.inboundSum += e.InboundTraffic
 		p.outboundSum += e.OutboundTraffic
 		p.connectionCount += 1
+		p.lock.Unlock()
 	}
 }
 
 func (p *logEventLogger) logTick() error {
-	inbound, inboundUnit := formatTraffic(p.inboundSum)
-	outbound, outboundUnit := formatTraffic(p.outboundSum)
-	p.logger.Printf("In the last %v, there were %v connections. Traffic Relayed ↑ %v %v, ↓ %v %v.\n",
-		p.logPeriod.String(), p.connectionCount, inbound, inboundUnit, outbound, outboundUnit)
+	p.lock.Lock()
+	inboundSum, outboundSum, connectionCount := p.inboundSum, p.outboundSum, p.connectionCount
 	p.outboundSum = 0
 	p.inboundSum = 0
 	p.connectionCount = 0
+	p.lock.Unlock()
+	inbound, inboundUnit := formatTraffic(inboundSum)
+	outbound, outboundUnit := formatTraffic(outboundSum)
+	p.logger.Printf("In the last %v, there were %v connections. Traffic Relayed ↑ %v %v, ↓ %v %v.\n",
+		p.logPeriod.String(), connectionCount, inbound, inboundUnit, outbound, outboundUnit)
 	return nil
 }
 
